@@ -1,6 +1,925 @@
-//! Property C14: correspondence and oracle (stub: nothing built yet).
-use crate::report::Report;
+//! Property C14 — data files convert to Lua values equal to the data.
+//!
+//! CORRESPONDENCE: the real `to_expression` (through `verif_hooks::to_expression`) on a serde
+//! value vs the Lean model `toExpr` (`c14.ser`) on the same value recorded by an independent
+//! recording serializer; expressions exchanged as S-expressions.
+//! ORACLE (independent of the model): the text `darklua_core::convert_data` returns must parse
+//! with darklua's `Parser`; an independent small Lua reader/evaluator (c14_lua.rs) evaluates that
+//! text; the value must equal (a) the parsed data of the format's value type and (b) the
+//! document the generator meant, by a structural walker written from the property statement.
+//! The re-parsed real AST is also evaluated by the Lean reference semantics (`c14.eval`, the
+//! `evalExpr` of the theorems) and must agree with the independent evaluator.
+#[path = "c14_data.rs"]
+mod data;
+#[path = "c14_gen.rs"]
+mod gen;
+#[path = "c14_lua.rs"]
+mod lua;
 
-pub fn run(report: &mut Report, _replay: Option<&str>) {
-    report.notes.push("C14: no harness yet".to_owned());
+use crate::model::Model;
+use crate::report::{known_findings, Report, Violation};
+use crate::rng::Rng;
+use data::{record, D, S};
+use gen::{Fmt, G, P};
+use lua::{LK, LV};
+use serde_json::{json, Value};
+use std::panic::{catch_unwind, AssertUnwindSafe};
+
+// ---------------------------------------------------------------------------------------
+// the walker: does the Lua value equal the data? (written from the property statement)
+
+fn nearest_double(i: i128) -> f64 {
+    // correctly rounded decimal parsing = the nearest double, ties to even
+    i.to_string().parse::<f64>().unwrap()
+}
+
+fn p_key(k: &P) -> Result<LK, String> {
+    match k {
+        P::Str(s) => Ok(LK::Str(s.as_bytes().to_vec())),
+        P::Bool(b) => Ok(LK::Bool(*b)),
+        P::Int(i) => lua::num_key(nearest_double(*i)).ok_or_else(|| "NaN key".to_owned()),
+        P::Float(f) => lua::num_key(*f).ok_or_else(|| "a NaN key denotes no Lua key".to_owned()),
+        P::Null => Err("a null key denotes no Lua key".to_owned()),
+        _ => Err("a container key is outside the property".to_owned()),
+    }
+}
+
+fn same_number(expected: f64, got: f64) -> bool {
+    (expected.is_nan() && got.is_nan()) || expected.to_bits() == got.to_bits()
+}
+
+fn data_eq(p: &P, v: Option<&LV>, path: &str) -> Result<(), String> {
+    let nil = LV::Nil;
+    let v = v.unwrap_or(&nil);
+    match (p, v) {
+        (P::Null, LV::Nil) => Ok(()),
+        (P::Bool(a), LV::Bool(b)) if a == b => Ok(()),
+        (P::Int(i), LV::Num(f)) if same_number(nearest_double(*i), *f) => Ok(()),
+        (P::Float(x), LV::Num(f)) if same_number(*x, *f) => Ok(()),
+        (P::Str(s), LV::Str(b)) if s.as_bytes() == b.as_slice() => Ok(()),
+        (P::Bytes(s), LV::Str(b)) if s == b => Ok(()),
+        (P::Arr(xs), LV::Table(t)) => {
+            let mut present = 0;
+            for (i, x) in xs.iter().enumerate() {
+                let key = LK::Num(((i + 1) as f64).to_bits());
+                let got = lua::table_get(t, &key);
+                if got.is_some() {
+                    present += 1;
+                }
+                data_eq(x, got, &format!("{}[{}]", path, i + 1))?;
+            }
+            if present != t.len() {
+                return Err(format!("{}: the table has {} keys that are not indices 1..{}", path, t.len() - present, xs.len()));
+            }
+            Ok(())
+        }
+        (P::Obj(kvs), LV::Table(t)) => {
+            let mut present = std::collections::BTreeSet::new();
+            for (k, x) in kvs {
+                let key = p_key(k).map_err(|e| format!("{}: {}", path, e))?;
+                let got = lua::table_get(t, &key);
+                if got.is_some() {
+                    present.insert(key.clone());
+                }
+                data_eq(x, got, &format!("{}.{:?}", path, key))?;
+            }
+            if present.len() != t.len() {
+                return Err(format!("{}: the table has {} keys that are not keys of the object", path, t.len() - present.len()));
+            }
+            Ok(())
+        }
+        (P::Opaque(what), _) => Err(format!("{}: {} is outside the property", path, what)),
+        (p, v) => Err(format!("{}: data {} but Lua value {}", path, brief_p(p), brief_v(v))),
+    }
+}
+
+fn brief_p(p: &P) -> String {
+    let s = format!("{:?}", p);
+    s.chars().take(80).collect()
+}
+fn brief_v(v: &LV) -> String {
+    let s = format!("{:?}", v);
+    s.chars().take(80).collect()
+}
+
+/// the property's own scope, judged on the parsed data (independent of Lean's `H14`): no opaque
+/// values; every object key a string, boolean or non-NaN number; keys of one object pairwise
+/// distinct as Lua keys
+fn scope(p: &P) -> Result<(), &'static str> {
+    match p {
+        P::Opaque(w) => Err(w),
+        P::Arr(xs) => xs.iter().try_for_each(scope),
+        P::Obj(kvs) => {
+            let mut seen = std::collections::BTreeSet::new();
+            for (k, v) in kvs {
+                match k {
+                    P::Null => return Err("null-key"),
+                    P::Float(f) if f.is_nan() => return Err("nan-key"),
+                    P::Arr(_) | P::Obj(_) => return Err("container-key"),
+                    P::Opaque(w) => return Err(w),
+                    _ => {}
+                }
+                let key = p_key(k).map_err(|_| "bad-key")?;
+                if !seen.insert(key) {
+                    return Err("keys-equal-in-lua");
+                }
+                scope(v)?;
+            }
+            Ok(())
+        }
+        _ => Ok(()),
+    }
+}
+
+/// F14 (property C13, `write_long_bracket`): a string that takes the long-bracket path
+/// (>= 20 bytes, only graphic ASCII / space / newline, and >= 60 bytes or >= 6 newlines) and
+/// contains `]` may be closed early. Text-level failures on such documents are C13's.
+fn f14_region(p: &P) -> bool {
+    fn eligible(s: &[u8]) -> bool {
+        s.len() >= 20
+            && s.iter().all(|c| c.is_ascii_graphic() || *c == b' ' || *c == b'\n')
+            && (s.len() >= 60 || s.iter().filter(|c| **c == b'\n').count() >= 6)
+            && s.contains(&b']')
+    }
+    match p {
+        P::Str(s) => eligible(s.as_bytes()),
+        P::Arr(xs) => xs.iter().any(f14_region),
+        P::Obj(kvs) => kvs.iter().any(|(k, v)| f14_region(k) || f14_region(v)),
+        _ => false,
+    }
+}
+
+// ---------------------------------------------------------------------------------------
+// real code
+
+struct Real {
+    data: D,
+    expr: String,
+    text: String,
+    parsed: P,
+}
+
+enum Parsed {
+    Rejected(String),
+    Ok(Real),
+    Failed(String),
+}
+
+fn run_real<T: serde::Serialize>(value: &T, parsed: P) -> Parsed {
+    let data = match record(value) {
+        Ok(d) => d,
+        Err(e) => return Parsed::Failed(format!("recorder: {}", e)),
+    };
+    let r = catch_unwind(AssertUnwindSafe(|| {
+        let expr = darklua_core::verif_hooks::to_expression(value)?;
+        let text = darklua_core::convert_data(value).map_err(|e| e.to_string())?;
+        Ok::<_, String>((expr, text))
+    }));
+    match r {
+        Ok(Ok((expr, text))) => {
+            let mut s = String::new();
+            lua::expr_sexp(&expr, true, &mut s);
+            Parsed::Ok(Real { data, expr: s, text, parsed })
+        }
+        Ok(Err(e)) => Parsed::Failed(format!("error: {}", e)),
+        Err(_) => Parsed::Failed("panic".to_owned()),
+    }
+}
+
+/// parse exactly as `src/cli/convert.rs` and `path_require_mode::require_resource` do
+fn parse_and_convert(fmt: Fmt, text: &str) -> Parsed {
+    match fmt {
+        Fmt::Json | Fmt::Json5 => match json5::from_str::<serde_json::Value>(text) {
+            Ok(v) => {
+                let p = gen::json_to_p(&v);
+                run_real(&v, p)
+            }
+            Err(e) => Parsed::Rejected(e.to_string()),
+        },
+        Fmt::Yaml => match serde_yaml::from_str::<serde_yaml::Value>(text) {
+            Ok(v) => {
+                let p = gen::yaml_to_p(&v);
+                run_real(&v, p)
+            }
+            Err(e) => Parsed::Rejected(e.to_string()),
+        },
+        Fmt::Toml => match toml::from_str::<toml::Value>(text) {
+            Ok(v) => {
+                let p = gen::toml_to_p(&v);
+                run_real(&v, p)
+            }
+            Err(e) => Parsed::Rejected(e.to_string()),
+        },
+    }
+}
+
+/// canonical form of a Lean value S-expression / of an `LV`, for comparison
+fn lv_canon(v: &LV) -> String {
+    match v {
+        LV::Nil => "nil".into(),
+        LV::Bool(b) => format!("(bool {})", b),
+        LV::Num(f) => {
+            if f.is_nan() {
+                "(num nan)".into()
+            } else {
+                format!("(num f{:016x})", f.to_bits())
+            }
+        }
+        LV::Str(s) => format!("(str {})", crate::model::hex(s)),
+        LV::Table(t) => {
+            let mut items: Vec<String> = t
+                .iter()
+                .map(|(k, v)| {
+                    let k = match k {
+                        LK::Num(b) => format!("(n f{:016x})", b),
+                        LK::Str(s) => format!("(str {})", crate::model::hex(s)),
+                        LK::Bool(b) => format!("(bool {})", b),
+                    };
+                    format!("({} {})", k, lv_canon(v))
+                })
+                .collect();
+            items.sort();
+            format!("(table {})", items.join(" "))
+        }
+    }
+}
+
+/// parse the Lean answer `(ok <val>)` into an `LV` (keys normalised like `LK`)
+fn lean_val(ans: &str) -> Result<LV, String> {
+    let toks: Vec<String> = ans.replace('(', " ( ").replace(')', " ) ").split_whitespace().map(str::to_owned).collect();
+    fn val(t: &[String], i: &mut usize) -> Result<LV, String> {
+        let tok = t.get(*i).ok_or("eof")?.clone();
+        *i += 1;
+        if tok == "nil" {
+            return Ok(LV::Nil);
+        }
+        if tok != "(" {
+            return Err(format!("unexpected {}", tok));
+        }
+        let head = t.get(*i).ok_or("eof")?.clone();
+        *i += 1;
+        let r = match head.as_str() {
+            "bool" => {
+                let b = t[*i] == "true";
+                *i += 1;
+                LV::Bool(b)
+            }
+            "num" => {
+                let f = crate::model::wire_f64(&t[*i]).ok_or("bad f64")?;
+                *i += 1;
+                LV::Num(f)
+            }
+            "str" => {
+                let s = crate::model::unhex(&t[*i]).ok_or("bad hex")?;
+                *i += 1;
+                LV::Str(s)
+            }
+            "table" => {
+                let mut items = Vec::new();
+                while t.get(*i).map(String::as_str) == Some("(") {
+                    *i += 1; // pair
+                    if t.get(*i).map(String::as_str) != Some("(") {
+                        return Err("key".into());
+                    }
+                    *i += 1;
+                    let kh = t[*i].clone();
+                    let kv = t[*i + 1].clone();
+                    *i += 2;
+                    let k = match kh.as_str() {
+                        "int" => lua::num_key(kv.parse::<f64>().map_err(|_| "int")?).ok_or("nan")?,
+                        "flt" => lua::num_key(crate::model::wire_f64(&kv).ok_or("flt")?).ok_or("nan")?,
+                        "str" => LK::Str(crate::model::unhex(&kv).ok_or("hex")?),
+                        "bool" => LK::Bool(kv == "true"),
+                        _ => return Err("key kind".into()),
+                    };
+                    if t[*i] != ")" {
+                        return Err("key close".into());
+                    }
+                    *i += 1;
+                    let v = val(t, i)?;
+                    if t[*i] != ")" {
+                        return Err("pair close".into());
+                    }
+                    *i += 1;
+                    items.push((k, v));
+                }
+                LV::Table(items)
+            }
+            other => return Err(format!("head {}", other)),
+        };
+        if t.get(*i).map(String::as_str) != Some(")") {
+            return Err("close".into());
+        }
+        *i += 1;
+        Ok(r)
+    }
+    let mut i = 0;
+    if toks.len() < 3 || toks[0] != "(" || toks[1] != "ok" {
+        return Err(ans.to_owned());
+    }
+    i += 2;
+    val(&toks, &mut i)
+}
+
+// ---------------------------------------------------------------------------------------
+// one case through all checks
+
+struct Case {
+    origin: Value,
+    intent: Option<P>,
+    real: Real,
+}
+
+struct Ctx<'a> {
+    report: &'a mut Report,
+    model: Model,
+    /// explored cases (hash of the non-triviality key), folded into the main report at the end
+    keys: Vec<Option<u64>>,
+}
+
+impl<'a> Ctx<'a> {
+    fn case(&mut self, key: Option<String>) {
+        self.keys.push(key.map(|k| crate::report::hash_of(&k)));
+    }
+    fn violation(&mut self, kind: &str, check: &str, what: String, input: Value, found: bool) {
+        self.report.violation(Violation {
+            kind: kind.to_owned(),
+            check: check.to_owned(),
+            what,
+            input,
+            failing_input_found: found,
+        });
+    }
+
+    /// returns the oracle verdict: Ok(in scope and fine) / Err(description)
+    fn oracle(&mut self, case: &Case, in_h: bool) -> Result<(), (String, String)> {
+        let real = &case.real;
+        // (1) the emitted text parses with darklua's parser
+        let parsed = catch_unwind(AssertUnwindSafe(|| darklua_core::Parser::default().parse(&real.text)));
+        let block = match parsed {
+            Ok(Ok(b)) => b,
+            Ok(Err(e)) => return Err(("text-parses".into(), format!("emitted text does not parse: {:?}", e))),
+            Err(_) => return Err(("text-parses".into(), "the parser panicked on the emitted text".into())),
+        };
+        // (2) independent evaluation of the text
+        let value = match lua::eval_chunk(real.text.as_bytes()) {
+            Ok(v) => v,
+            Err(e) => {
+                if in_h {
+                    return Err(("text-evaluates".into(), format!("emitted text does not evaluate: {}", e)));
+                }
+                self.report.hist("outside_H", &format!("eval: {}", e.split(':').next().unwrap_or("?")));
+                return Ok(());
+            }
+        };
+        // (2b) the Lean reference semantics on the re-parsed real AST agrees with it
+        if let Some(darklua_core::nodes::LastStatement::Return(ret)) = block.get_last_statement() {
+            if let Some(e) = ret.iter_expressions().next() {
+                let mut s = String::new();
+                lua::expr_sexp(e, false, &mut s);
+                let ans = self.model.ask(&format!("c14.eval {}", s));
+                match lean_val(&ans) {
+                    Ok(lv) => {
+                        if lv_canon(&lv) != lv_canon(&value) {
+                            return Err(("lean-eval-agrees".into(), format!("Spec.evalExpr on the re-parsed text gives {} but the independent evaluator {}", brief_v(&lv), brief_v(&value))));
+                        }
+                        self.report.count("lean_eval_agree", 1);
+                    }
+                    Err(e) => {
+                        if in_h {
+                            return Err(("lean-eval-agrees".into(), format!("Spec.evalExpr on the re-parsed text: {}", e)));
+                        }
+                    }
+                }
+            }
+        }
+        if !in_h {
+            // outside the hypothesis: the value may or may not equal the data; just record
+            let ok = data_eq(&real.parsed, Some(&value), "$").is_ok();
+            self.report.hist("outside_H", if ok { "value equals data anyway" } else { "value differs" });
+            return Ok(());
+        }
+        // (3) value equals the parsed data
+        if let Err(e) = data_eq(&real.parsed, Some(&value), "$") {
+            return Err(("value-equals-parsed-data".into(), e));
+        }
+        // (4) value equals the document as meant
+        if let Some(intent) = &case.intent {
+            if let Err(e) = data_eq(intent, Some(&value), "$") {
+                return Err(("value-equals-document".into(), e));
+            }
+            self.report.count("intent_checked", 1);
+        }
+        Ok(())
+    }
+
+    fn check(&mut self, case: Case, key: String) {
+        let d_sexp = case.real.data.to_sexp();
+        let in_h_lean = self.model.ask(&format!("c14.H {}", d_sexp));
+        let in_scope = scope(&case.real.parsed);
+        let in_h = in_h_lean == "true";
+        if case.origin["kind"] != "serde" && in_h != in_scope.is_ok() {
+            let what = format!("Lean H14 says {} but the harness scope judgement says {:?}", in_h_lean, in_scope);
+            self.violation("correspondence", "H14-vs-scope", what, case.origin.clone(), false);
+        }
+        self.report.hist("in_H14", if in_h { "inside" } else { in_scope.err().unwrap_or("outside") });
+        // every JSON / JSON5 / TOML document must satisfy the data-only hypothesis of the corollary
+        if matches!(case.origin["format"].as_str(), Some("json") | Some("json5") | Some("toml")) {
+            let j = self.model.ask(&format!("c14.J {}", d_sexp));
+            if j == "true" {
+                self.report.count("jsonlike_documents", 1);
+            } else {
+                let what = format!("JsonLike is {} on a {} document", j, case.origin["format"]);
+                self.violation("correspondence", "JsonLike-covers-format", what, case.origin.clone(), false);
+            }
+        }
+        // oracle first: a failure of the property itself is the stronger finding
+        let oracle = if case.origin["kind"] == "serde" && !in_h {
+            Ok(())
+        } else if case.origin["kind"] == "serde" {
+            self.oracle_serde(&case)
+        } else {
+            self.oracle(&case, in_h)
+        };
+        let mut oracle_failed = false;
+        let oracle = match oracle {
+            Err(_) if f14_region(&case.real.parsed) => {
+                self.report.hist("excluded", "text check failed in the F14 region (C13): long-bracket string containing ]");
+                Ok(())
+            }
+            other => other,
+        };
+        if let Err((check, what)) = oracle {
+            oracle_failed = true;
+            let mut input = case.origin.clone();
+            input["lua"] = json!(case.real.text);
+            self.violation("oracle", &check, what, input, true);
+        }
+        // correspondence
+        let model_expr = self.model.ask(&format!("c14.ser {}", d_sexp));
+        if model_expr != case.real.expr {
+            if !oracle_failed {
+                let mut input = case.origin.clone();
+                input["data"] = json!(d_sexp);
+                let what = format!("model {} / real {}", clip(&model_expr), clip(&case.real.expr));
+                self.violation("correspondence", "toExpr-vs-to_expression", what, input, false);
+            }
+        }
+        let nontrivial = case.real.data.size() > 1;
+        self.case(if nontrivial { Some(key) } else { None });
+    }
+
+    /// oracle for values that do not come from a document: evaluate the text, compare with the
+    /// recorded data by the same walker (D -> P by plain matching)
+    fn oracle_serde(&mut self, case: &Case) -> Result<(), (String, String)> {
+        let real = &case.real;
+        match catch_unwind(AssertUnwindSafe(|| darklua_core::Parser::default().parse(&real.text))) {
+            Ok(Ok(_)) => {}
+            _ => return Err(("text-parses".into(), "emitted text does not parse".into())),
+        }
+        let value = lua::eval_chunk(real.text.as_bytes()).map_err(|e| ("text-evaluates".to_owned(), e))?;
+        data_eq(&real.parsed, Some(&value), "$").map_err(|e| ("value-equals-parsed-data".to_owned(), e))
+    }
+}
+
+fn clip(s: &str) -> String {
+    if s.len() > 300 {
+        format!("{}…", s.chars().take(300).collect::<String>())
+    } else {
+        s.to_owned()
+    }
+}
+
+/// D -> P for serde-level cases (bytes are strings on the Lua side; wrappers transparent)
+fn d_to_p(d: &D) -> P {
+    match d {
+        D::Null => P::Null,
+        D::Bool(b) => P::Bool(*b),
+        D::I64(v) => P::Int(*v as i128),
+        D::U64(v) => P::Int(*v as i128),
+        D::F64(b) => P::Float(f64::from_bits(*b)),
+        D::Str(s) => P::Str(String::from_utf8_lossy(s).into_owned()),
+        D::Bytes(b) => P::Bytes(b.clone()),
+        D::Some(d) => d_to_p(d),
+        D::Seq(xs) => P::Arr(xs.iter().map(d_to_p).collect()),
+        D::Map(kvs) => P::Obj(kvs.iter().map(|(k, v)| (d_to_p(k), d_to_p(v))).collect()),
+        D::Variant(n, d) => P::Obj(vec![(P::Str(String::from_utf8_lossy(n).into_owned()), d_to_p(d))]),
+    }
+}
+
+// ---------------------------------------------------------------------------------------
+// serde-level generator
+
+fn gen_s(rng: &mut Rng, depth: usize, as_key: bool) -> S {
+    let leaf = depth == 0 || rng.chance(1, 2);
+    if leaf || as_key {
+        return match rng.below(if as_key { 14 } else { 20 }) {
+            0 => S::Bool(rng.chance(1, 2)),
+            1 => S::I8(rng.next_u64() as i8),
+            2 => S::I16(rng.next_u64() as i16),
+            3 => S::I32(rng.next_u64() as i32),
+            4 => S::I64((rng.next_u64() as i64) >> rng.below(64)),
+            5 => S::U8(rng.next_u64() as u8),
+            6 => S::U16(rng.next_u64() as u16),
+            7 => S::U32(rng.next_u64() as u32),
+            8 => S::U64(rng.next_u64() >> rng.below(64)),
+            9 => S::F32(f32::from_bits(rng.next_u64() as u32)),
+            10 => S::F64(if rng.chance(1, 2) { f64::from_bits(rng.next_u64()) } else { rng.range(-50, 50) as f64 / 4.0 }),
+            11 => S::Char(*rng.pick(&['a', '_', '1', '\0', '\'', 'é', '😀', '\n'])),
+            12 => S::UnitVariant(rng.below(16)),
+            13 => S::Str(gen::gen_string(rng)),
+            14 => S::Unit,
+            15 => S::None,
+            16 => S::UnitStruct,
+            17 => S::Bytes((0..rng.below(6)).map(|_| rng.next_u64() as u8).collect()),
+            18 => S::Some(Box::new(gen_s(rng, 0, false))),
+            _ => S::Newtype(Box::new(gen_s(rng, 0, false))),
+        };
+    }
+    let n = rng.below(5);
+    match rng.below(10) {
+        0 => S::Seq((0..n).map(|_| gen_s(rng, depth - 1, false)).collect()),
+        1 => S::Tuple((0..n).map(|_| gen_s(rng, depth - 1, false)).collect()),
+        2 => S::TupleStruct((0..n).map(|_| gen_s(rng, depth - 1, false)).collect()),
+        3 => S::TupleVariant(rng.below(16), (0..n).map(|_| gen_s(rng, depth - 1, false)).collect()),
+        4 | 5 => S::Map((0..n).map(|_| (gen_s(rng, depth - 1, true), gen_s(rng, depth - 1, false))).collect()),
+        6 => {
+            let mut ks: Vec<usize> = (0..16).collect();
+            rng.shuffle(&mut ks);
+            S::Struct(ks.into_iter().take(n).map(|k| (k, gen_s(rng, depth - 1, false))).collect())
+        }
+        7 => {
+            let mut ks: Vec<usize> = (0..16).collect();
+            rng.shuffle(&mut ks);
+            S::StructVariant(rng.below(16), ks.into_iter().take(n).map(|k| (k, gen_s(rng, depth - 1, false))).collect())
+        }
+        8 => S::NewtypeVariant(rng.below(16), Box::new(gen_s(rng, depth - 1, false))),
+        _ => S::Some(Box::new(gen_s(rng, depth - 1, false))),
+    }
+}
+
+// ---------------------------------------------------------------------------------------
+
+fn doc_case(ctx: &mut Ctx, fmt: Fmt, text: &str, intent: Option<P>, tag: &str) {
+    ctx.report.hist("format", fmt.name());
+    match parse_and_convert(fmt, text) {
+        Parsed::Rejected(e) => {
+            if std::env::var("C14_DEBUG").is_ok() {
+                eprintln!("REJECTED {} {:?}: {}", fmt.name(), text, e);
+            }
+            ctx.report.hist("rejected_by_format_parser", &format!("{}: {}", fmt.name(), e.split(" at ").next().unwrap_or("?").chars().take(60).collect::<String>()));
+            ctx.case(None);
+        }
+        Parsed::Failed(e) => {
+            let input = json!({"kind": tag, "format": fmt.name(), "text": text});
+            ctx.violation("oracle", "conversion-succeeds", format!("convert_data failed on a parsed document: {}", e), input, true);
+        }
+        Parsed::Ok(real) => {
+            let origin = json!({"kind": tag, "format": fmt.name(), "text": text});
+            let key = format!("{}:{}", fmt.name(), real.expr);
+            ctx.check(Case { origin, intent, real }, key);
+        }
+    }
+}
+
+fn serde_case(ctx: &mut Ctx, s: &S) {
+    let data = match record(s) {
+        Ok(d) => d,
+        Err(_) => return,
+    };
+    let parsed = d_to_p(&data);
+    match run_real(s, parsed) {
+        Parsed::Ok(real) => {
+            let origin = json!({"kind": "serde", "value": format!("{:?}", s)});
+            let key = format!("serde:{}", real.expr);
+            ctx.check(Case { origin, intent: None, real }, key);
+        }
+        Parsed::Failed(e) => {
+            let input = json!({"kind": "serde", "value": format!("{:?}", s)});
+            ctx.violation("correspondence", "to_expression-total", format!("the real serializer failed where the model is total: {}", e), input, false);
+        }
+        Parsed::Rejected(_) => {}
+    }
+}
+
+
+// ---------------------------------------------------------------------------------------
+// bundled `require` of a data file through the real `darklua_core::process`
+
+fn find_mod_impl(block: &darklua_core::nodes::Block) -> Option<&darklua_core::nodes::Expression> {
+    use darklua_core::nodes::{LastStatement, Statement};
+    for st in block.iter_statements() {
+        match st {
+            Statement::Do(d) => {
+                if let Some(e) = find_mod_impl(d.get_block()) {
+                    return Some(e);
+                }
+            }
+            Statement::LocalFunction(f) if f.get_name() == "__modImpl" => {
+                if let Some(LastStatement::Return(r)) = f.get_block().get_last_statement() {
+                    return r.iter_expressions().next();
+                }
+            }
+            _ => {}
+        }
+    }
+    None
+}
+
+/// `local value = require('./value.<ext>')` bundled with require mode `path`; returns the
+/// expression the bundle inlines for the data file, as a (loose) S-expression
+fn bundle_expr(ext: &str, content: &str) -> Result<String, String> {
+    let r = catch_unwind(AssertUnwindSafe(|| {
+        let resources = darklua_core::Resources::from_memory();
+        let w = |p: &str, c: &str| resources.write(p, c).map_err(|e| format!("{:?}", e));
+        w(".darklua.json", "{ \"rules\": [], \"generator\": \"dense\", \"bundle\": { \"require_mode\": \"path\" } }")?;
+        w(&format!("src/value.{}", ext), content)?;
+        w("src/main.lua", &format!("local value = require('./value.{}')", ext))?;
+        darklua_core::process(&resources, darklua_core::Options::new("src/main.lua").with_output("out.lua"))
+            .map_err(|e| e.to_string())?
+            .result()
+            .map_err(|errs| errs.iter().map(|e| e.to_string()).collect::<Vec<_>>().join("; "))?;
+        let out = resources.get("out.lua").map_err(|e| format!("{:?}", e))?;
+        let block = darklua_core::Parser::default().parse(&out).map_err(|e| format!("bundle output does not parse: {:?}", e))?;
+        let e = find_mod_impl(&block).ok_or_else(|| format!("no __modImpl in the bundle: {}", out))?;
+        let mut s = String::new();
+        lua::expr_sexp(e, false, &mut s);
+        Ok::<_, String>(s)
+    }));
+    match r {
+        Ok(x) => x,
+        Err(_) => Err("panic".to_owned()),
+    }
+}
+
+fn bundle_case(ctx: &mut Ctx, fmt: Fmt, text: &str) {
+    // what `convert` emits for the same document, re-read by the same parser
+    let real = match parse_and_convert(fmt, text) {
+        Parsed::Ok(r) => r,
+        _ => return,
+    };
+    let convert_expr = match darklua_core::Parser::default().parse(&real.text) {
+        Ok(block) => match block.get_last_statement() {
+            Some(darklua_core::nodes::LastStatement::Return(r)) => {
+                let mut s = String::new();
+                if let Some(e) = r.iter_expressions().next() {
+                    lua::expr_sexp(e, false, &mut s);
+                }
+                s
+            }
+            _ => return,
+        },
+        Err(_) => return,
+    };
+    let ext = match (fmt, text.len() % 2) {
+        (Fmt::Yaml, 0) => "yml",
+        (f, _) => f.name(),
+    };
+    ctx.report.hist("bundle", ext);
+    let input = json!({"kind": "bundle", "format": fmt.name(), "text": text, "extension": ext});
+    match bundle_expr(ext, text) {
+        Ok(b) if b == convert_expr => {
+            // the inlined expression is judged by the Lean reference semantics against the parsed data
+            if scope(&real.parsed).is_ok() {
+                let ans = ctx.model.ask(&format!("c14.eval {}", b));
+                match lean_val(&ans) {
+                    Ok(v) => {
+                        if let Err(e) = data_eq(&real.parsed, Some(&v), "$") {
+                            ctx.violation("oracle", "bundle-value-equals-parsed-data", e, input, true);
+                        }
+                    }
+                    Err(e) => ctx.violation("oracle", "bundle-value-evaluates", e, input, true),
+                }
+            }
+            ctx.report.count("bundle_checked", 1);
+        }
+        _ if f14_region(&real.parsed) => {
+            ctx.report.hist("excluded", "text check failed in the F14 region (C13): long-bracket string containing ]")
+        }
+        Ok(b) => {
+            let what = format!("bundle inlines {} but convert emits {}", clip(&b), clip(&convert_expr));
+            ctx.violation("oracle", "bundle-same-as-convert", what, input, true);
+        }
+        Err(e) => ctx.violation("oracle", "bundle-succeeds", e, input, true),
+    }
+    ctx.case(None);
+}
+
+fn txt_case(ctx: &mut Ctx, content: &str) {
+    ctx.report.hist("bundle", "txt");
+    let expected = format!("(str {})", crate::model::hex(content.as_bytes()));
+    let input = json!({"kind": "bundle", "format": "txt", "text": content});
+    match bundle_expr("txt", content) {
+        Ok(b) if b == expected => ctx.report.count("bundle_checked", 1),
+        _ if f14_region(&P::Str(content.to_owned())) => {
+            ctx.report.hist("excluded", "text check failed in the F14 region (C13): long-bracket string containing ]")
+        }
+        Ok(b) => ctx.violation("oracle", "txt-is-the-file-content", format!("inlined {} expected {}", clip(&b), clip(&expected)), input, true),
+        Err(e) => ctx.violation("oracle", "bundle-succeeds", e, input, true),
+    }
+    ctx.case(Some(format!("txt:{}", content)));
+}
+
+fn replay_known(ctx: &mut Ctx) {
+    for f in known_findings("C14") {
+        let id = f["id"].as_str().unwrap_or("?").to_owned();
+        let w = &f["witness"];
+        let fmt = match w["format"].as_str().and_then(Fmt::from_name) {
+            Some(f) => f,
+            None => continue,
+        };
+        let text = w["text"].as_str().unwrap_or("");
+        let expect = w["expect"].as_str().unwrap_or("");
+        if let Parsed::Ok(real) = parse_and_convert(fmt, text) {
+            let evaluated = lua::eval_chunk(real.text.as_bytes());
+            let still = match expect {
+                "raises" => evaluated.is_err(),
+                "differs-from-parsed-data" => match &evaluated {
+                    Ok(v) => data_eq(&real.parsed, Some(v), "$").is_err(),
+                    Err(_) => false,
+                },
+                "differs-from-document" => match (&evaluated, w["lua_expected"].as_str()) {
+                    (Ok(v), Some(exp)) => lua::eval_chunk(exp.as_bytes()).map(|e| lv_canon(&e) != lv_canon(v)).unwrap_or(false),
+                    _ => false,
+                },
+                _ => false,
+            };
+            if still {
+                let what = format!("{} -> {} ({})", text.trim(), real.text.replace('\n', ""), match &evaluated {
+                    Err(e) => e.clone(),
+                    Ok(_) => expect.to_owned(),
+                });
+                ctx.report.known_finding(&id, &what);
+            }
+        }
+    }
+}
+
+fn enumerated(ctx: &mut Ctx, rng: &mut Rng) {
+    // every byte value valid UTF-8 can contain, as value and as key, in each format; every keyword
+    // as key; digits-first / empty / quote keys
+    let cps = gen::all_byte_code_points();
+    let mut strings: Vec<String> = cps.iter().map(|c| c.to_string()).collect();
+    strings.extend(cps.iter().map(|c| format!("{}7", c))); // escape followed by a digit
+    strings.extend(gen::KEYWORDS.iter().map(|s| s.to_string()));
+    strings.extend(["", "1", "1a", "a1", "_", "a b", "\"", "'", "\\", "\n", "a\"b'c", "goto", "continue", "self", "type"].iter().map(|s| s.to_string()));
+    for fmt in [Fmt::Json, Fmt::Json5, Fmt::Yaml, Fmt::Toml] {
+        for s in &strings {
+            let g = G::Obj(vec![(gen::GKey::Str(s.clone()), G::Str(s.clone())), (gen::GKey::Str("ZZ_".into()), G::Arr(vec![G::Str(s.clone())]))]);
+            let text = gen::render(&g, fmt, rng);
+            doc_case(ctx, fmt, &text, Some(gen::g_to_p(&g)), "enumerated");
+        }
+    }
+    ctx.report.exhaustive.insert("every UTF-8 byte value as key and value, every keyword as key, per format".into(), true);
+}
+
+const FIXED_DOCS: [(&str, &str); 14] = [
+    ("json", "null"),
+    ("json", "[]"),
+    ("json", "{}"),
+    ("json", "[null, null]"),
+    ("json", "[1, null, 3, [null], {\"a\": null}]"),
+    ("json", "{\"a\": {\"b\": {\"c\": [[], {}, [{}]]}}}"),
+    ("json5", "{a: 0x10, b: +1, c: .5, d: 5., h: 18446744073709551615, j: -9223372036854775808, n: 9007199254740993, o: -0, p: -0.0, q: 1e2, r: 1E-2, s: -0x10}"),
+    ("json5", "// c\n{'it\\'s': 'a\\\nb', \"\\u0000\": '\\x41\\0', }"),
+    ("yaml", "[1e3, 1.5e3, .5, 5., +1, 0x1F, 0o17, .inf, -.inf, .nan, -0, -0.0, 0b11, 1e-7, ~, yes, \"a\\\n  b\"]"),
+    ("yaml", "{true: 1, false: 2, 1: a, 2.5: b, -.inf: c, \"1\": d, 18446744073709551615: e}"),
+    ("yaml", "a: &x [1, 2]\nb: *x\nc: |\n  line1\n  line2\nd: >\n  folded\n  text\n"),
+    ("toml", "a = [1e3, 1.5e3, +1, 0x1F, 0o17, 1_000, inf, -inf, nan, -0, -0.0, 0b11, 1e-7, 9223372036854775807, -9223372036854775808]\n\"\" = 1\n1a = 2\n- = 3\n\"\\u0000\\u007f\" = \"\\u0000\\t\\U0001F600\"\nb = \"\"\"\nx\ny\"\"\"\nc = 'it\\n'\n"),
+    ("toml", "[[t]]\nx = 1\n[[t]]\nx = 2\n[do.end]\nnil = true\n"),
+    ("toml", "a.b.c = 1\na.b.d = [ [1, 2], [\"x\"] ]\n"),
+];
+
+pub fn run(report: &mut Report, replay: Option<&str>) {
+    report.rule = "documents: fixed corpus + per-format enumeration of every UTF-8 byte value/keyword as key and value + random nested documents (awkward keys, long strings, integers around 2^53..2^64, exponent forms, non-finite YAML/TOML numbers, nulls in arrays) rendered as JSON, JSON5, YAML, TOML; serde-level values reaching every serialize_* method. A case is non-trivial when the data has at least one container or wrapper; distinct = distinct (format, real expression).".to_owned();
+    // decorrelate consecutive seeds (SplitMix streams of seeds s and s+1 are shifts of each other)
+    let mut rng = Rng::new(report.seed.wrapping_mul(0x2545F4914F6CDD1D) ^ 0xC14C14);
+    for _ in 0..(report.seed % 7) {
+        rng.next_u64();
+    }
+    let _thorough = report.is_thorough();
+    let mut ctx = Ctx { report, model: Model::spawn(), keys: Vec::new() };
+
+    if let Some(path) = replay {
+        if let Ok(text) = std::fs::read_to_string(path) {
+            if let Ok(v) = serde_json::from_str::<Value>(&text) {
+                let input = if v.get("input").is_some() { v["input"].clone() } else { v.clone() };
+                if let (Some(fmt), Some(text)) = (input["format"].as_str().and_then(Fmt::from_name), input["text"].as_str()) {
+                    doc_case(&mut ctx, fmt, text, None, "replay");
+                }
+            }
+        }
+        return;
+    }
+
+    replay_known(&mut ctx);
+
+    // corpus (minimised past disagreements / witnesses): files `<name>.<format>`
+    let corpus = concat!(env!("CARGO_MANIFEST_DIR"), "/../corpus/C14");
+    if let Ok(dir) = std::fs::read_dir(corpus) {
+        let mut files: Vec<_> = dir.filter_map(|e| e.ok()).map(|e| e.path()).collect();
+        files.sort();
+        for path in files {
+            let fmt = path.extension().and_then(|e| e.to_str()).and_then(Fmt::from_name);
+            if let (Some(fmt), Ok(text)) = (fmt, std::fs::read_to_string(&path)) {
+                doc_case(&mut ctx, fmt, &text, None, "corpus");
+            }
+        }
+    }
+    for (f, text) in FIXED_DOCS {
+        doc_case(&mut ctx, Fmt::from_name(f).unwrap(), text, None, "fixed");
+    }
+    enumerated(&mut ctx, &mut rng);
+
+    let requests = ctx.model.requests;
+    let keys = std::mem::take(&mut ctx.keys);
+    drop(ctx);
+    report.count("model_requests", requests);
+    for k in keys {
+        report.case(k);
+    }
+    // random phases on worker threads, one Lean driver each
+    let threads = 8usize;
+    let (tier, seed) = (report.tier.clone(), report.seed);
+    let handles: Vec<_> = (0..threads)
+        .map(|t| {
+            let tier = tier.clone();
+            let mut rng = rng.fork();
+            std::thread::spawn(move || {
+                let mut local = Report::new("C14", &tier, seed);
+                let keys = random_phases(&mut local, &mut rng, t, threads);
+                (local, keys)
+            })
+        })
+        .collect();
+    for h in handles {
+        let (local, keys) = h.join().expect("worker thread");
+        for k in keys {
+            report.case(k);
+        }
+        for (name, buckets) in local.histograms {
+            for (b, n) in buckets {
+                *report.histograms.entry(name.clone()).or_default().entry(b).or_default() += n;
+            }
+        }
+        for (name, n) in local.counters {
+            report.count(&name, n);
+        }
+        for v in local.violations {
+            report.violation(v);
+        }
+        for smp in local.samples {
+            report.sample(smp);
+        }
+    }
+}
+
+fn random_phases(report: &mut Report, rng: &mut Rng, thread: usize, threads: usize) -> Vec<Option<u64>> {
+    let thorough = report.is_thorough();
+    let mut ctx = Ctx { report, model: Model::spawn(), keys: Vec::new() };
+    let rng = &mut *rng;
+    // random documents inside the hypothesis
+    let n_docs = (if thorough { 1600000 } else { 160000 }) / threads;
+    for i in 0..n_docs {
+        let fmt = [Fmt::Json, Fmt::Json5, Fmt::Yaml, Fmt::Toml][i % 4];
+        let c = gen::caps(fmt);
+        let g = gen::gen_document(rng, fmt, &c);
+        let text = gen::render(&g, fmt, rng);
+        if i < 4 && thread == 0 {
+            ctx.report.sample(json!({"format": fmt.name(), "text": text}));
+        }
+        doc_case(&mut ctx, fmt, &text, Some(gen::g_to_p(&g)), "random");
+        if i % 8 < 4 {
+            bundle_case(&mut ctx, fmt, &text);
+        }
+    }
+    for (f, text) in FIXED_DOCS {
+        bundle_case(&mut ctx, Fmt::from_name(f).unwrap(), text);
+    }
+    for i in 0..(n_docs / 20) {
+        let content = if i == 0 { String::new() } else { gen::gen_string(rng) };
+        txt_case(&mut ctx, &content);
+    }
+    // YAML documents that may leave the hypothesis (null / NaN / colliding keys): classified only
+    let n_def = (if thorough { 160000 } else { 16000 }) / threads;
+    let mut c = gen::caps(Fmt::Yaml);
+    c.defective_keys = true;
+    for _ in 0..n_def {
+        let g = gen::gen_document(rng, Fmt::Yaml, &c);
+        let text = gen::render(&g, Fmt::Yaml, rng);
+        doc_case(&mut ctx, Fmt::Yaml, &text, None, "random-yaml-any-keys");
+    }
+    // serde-level values
+    let n_serde = (if thorough { 1600000 } else { 160000 }) / threads;
+    for i in 0..n_serde {
+        let depth = 1 + rng.below(4);
+        let s = gen_s(rng, depth, false);
+        if i < 2 && thread == 0 {
+            ctx.report.sample(json!({"serde": format!("{:?}", s)}));
+        }
+        serde_case(&mut ctx, &s);
+    }
+    let requests = ctx.model.requests;
+    ctx.report.count("model_requests", requests);
+    std::mem::take(&mut ctx.keys)
 }
